@@ -253,7 +253,11 @@ class Supervisor:
                         pass
 
             for group in pgroups:
-                group.transition()
+                # a group can have been removed (removeProcessGroup) by a
+                # request dispatched above; its processes must not be
+                # (re)started behind the back of the process table
+                if any(group is g for g in self.process_groups.values()):
+                    group.transition()
 
             self.reap()
             self.handle_signal()
